@@ -840,11 +840,14 @@ def _skip_event(*events, **kwargs):
         if subpaths is None:
             return False
         # (an event that waited for the end of a batch knows what was
-        # reached through the previous subobject when it was replaced)
-        before = getattr(e, 'reached', {})
+        # reached through the previous subobject when it was replaced
+        # and through the new one when it was attached: what changed on it
+        # since is announced by its own watchers)
+        before = getattr(e, 'reached', None) or {}
+        after = getattr(e, 'entered', None) or {}
         for p, what in subpaths:
             old = before[(p, what)] if (p, what) in before else _reached(e.old, p, what)
-            new = _reached(e.new, p, what)
+            new = after[(p, what)] if (p, what) in after else _reached(e.new, p, what)
             if not Comparator.is_equal(old, new):
                 return False
     return True
@@ -876,15 +879,17 @@ def extract_dependencies(function):
 
 
 # Two callers at the module top level to support pickling.
-async def _async_caller(*events, what='value', changed=None, callback=None, function=None):
-    if callback:
+async def _async_caller(*events, what='value', changed=None, callback=None, function=None, routed=None):
+    if callback and (routed is None or any(e.name in routed for e in events)):
         callback(*events)
     if not _skip_event or not _skip_event(*events, what=what, changed=changed):
         await function()
 
 
-def _sync_caller(*events, what='value', changed=None, callback=None, function=None):
-    if callback:
+def _sync_caller(*events, what='value', changed=None, callback=None, function=None, routed=None):
+    # (the dependencies are set up again when a parameter that a dependency
+    # path passes through is assigned, not for the final ones)
+    if callback and (routed is None or any(e.name in routed for e in events)):
         callback(*events)
     if not _skip_event(*events, what=what, changed=changed):
         return function()
@@ -899,7 +904,7 @@ def _update_deps_caller(obj, attribute, *events):
     obj.param._update_deps(attribute)
 
 
-def _m_caller(self, method_name, what='value', changed=None, callback=None):
+def _m_caller(self, method_name, what='value', changed=None, callback=None, routed=None):
     """
     Wrap a method call adding support for scheduling a callback
     before it is executed and skipping events if a subobject has
@@ -907,7 +912,8 @@ def _m_caller(self, method_name, what='value', changed=None, callback=None):
     """
     function = getattr(self, method_name)
     _caller = _async_caller if iscoroutinefunction(function) else _sync_caller
-    caller = partial(_caller, what=what, changed=changed, callback=callback, function=function)
+    caller = partial(_caller, what=what, changed=changed, callback=callback, function=function,
+                     routed=routed)
     caller._watcher_name = method_name
     return caller
 
@@ -964,20 +970,25 @@ class _QueuedEvent(Event):
     that had a qualifying event for it, not those that only qualified
     for another watcher). For the internal watchers of sub-object
     dependencies `reached` holds what was reached through the replaced
-    object at the time it was replaced: until the batch ends that object
-    may be modified, or be attached again.
+    object at the time it was replaced, `entered` what was reached through
+    the new one at that time: until the batch ends the former may be
+    modified or be attached again, and what changes on the latter is
+    announced by its own watchers.
     """
 
     # (no __slots__: carries the attributes `reached` and `watcher`)
 
-    reached = None
+    reached = None   # through the replaced object, when it was replaced
+    entered = None   # through the new object, when it was attached
     watcher = None   # the watcher it qualified for when it was queued
 
     @classmethod
-    def of(cls, event, reached=None, watcher=None):
+    def of(cls, event, reached=None, watcher=None, entered=None):
         queued = cls(*event)
         if reached:
             queued.reached = reached
+        if entered:
+            queued.entered = entered
         if watcher is not None:
             queued.watcher = watcher
         return queued
@@ -1783,14 +1794,15 @@ class Parameter(_ParameterBase):
             # The methods depending on something reached through the object
             # being replaced are told at the end of the batch: what is
             # reached now, on the sub-paths their watchers compared
-            reached = {}
+            reached, entered = {}, {}
             for path in compared:
                 try:
                     reached[path] = _reached(_old, *path)
+                    entered[path] = _reached(val, *path)
                 except Exception:
                     pass
             if reached:
-                event = _QueuedEvent.of(event, reached)
+                event = _QueuedEvent.of(event, reached, entered=entered)
 
         # Copy watchers here since they may be modified inplace during iteration
         try:
@@ -2685,12 +2697,13 @@ class Parameters:
                 params.append(g.name)
 
         if dynamic_dep is None:
-            subparams, callback, what = None, None, param_dep.what
+            subparams, callback, what, routed = None, None, param_dep.what, None
         else:
             # Several dependencies may pass through the parameters watched
             # here: each parameter is compared on the sub-paths of all of
             # them, unless it is itself one of the dependencies
             subparams, callback, what = {}, None, param_dep.what
+            routed = set()   # the parameters a dependency path passes through
             for ddep, pdep in group:
                 if ddep is None:
                     # depended on directly as well: always counts
@@ -2699,13 +2712,15 @@ class Parameters:
                 dsubparams, dcallback, dwhat = self_._resolve_dynamic_deps(
                     obj, ddep, pdep, ddep.spec.split(".")[0])
                 callback = callback or dcallback
+                if dcallback is not None:
+                    routed.add(pdep.name)
                 if dsubparams is None:
                     subparams[pdep.name] = None
                 elif subparams.get(pdep.name, []) is not None:
                     subpaths = subparams.setdefault(pdep.name, [])
                     subpaths += [(sp, dwhat) for sp in dsubparams if (sp, dwhat) not in subpaths]
 
-        mcaller = _m_caller(obj, name, what, subparams, callback)
+        mcaller = _m_caller(obj, name, what, subparams, callback, routed)
         return dep_obj.param._watch(
             mcaller, params, param_dep.what, queued=queued, precedence=-1)
 
@@ -3159,7 +3174,7 @@ class Parameters:
         typed = Event(what=event.what, name=event.name, obj=event.obj, cls=event.cls,
                       old=event.old, new=event.new, type=event_type)
         if getattr(event, 'reached', None) and hasattr(watcher.fn, '_watcher_name'):
-            typed = _QueuedEvent.of(typed, event.reached)
+            typed = _QueuedEvent.of(typed, event.reached, entered=event.entered)
         return typed
 
     def _execute_watcher(self, watcher, events):
@@ -3192,6 +3207,7 @@ class Parameters:
         if self_._BATCH_WATCH:
             keywords = getattr(watcher.fn, 'keywords', None) if hasattr(watcher.fn, '_watcher_name') else None
             reached = dict(getattr(event, 'reached', None) or {})
+            entered = dict(getattr(event, 'entered', None) or {})
             if keywords and keywords.get('changed') is not None:
                 # A method depending on something reached through the
                 # object being replaced: whether that changes is judged at
@@ -3201,9 +3217,10 @@ class Parameters:
                         continue
                     try:
                         reached[(p, what)] = _reached(event.old, p, what)
+                        entered[(p, what)] = _reached(event.new, p, what)
                     except Exception:
                         pass
-            self_._events.append(_QueuedEvent.of(event, reached, watcher))
+            self_._events.append(_QueuedEvent.of(event, reached, watcher, entered))
             if not any(watcher is w for w in self_._state_watchers):
                 self_._state_watchers.append(watcher)
         else:
@@ -3222,6 +3239,7 @@ class Parameters:
                 # first queued assignment to the final value
                 event_dict = OrderedDict()
                 initial = {}
+                latest = {}
                 qualified = defaultdict(set)
                 for event in self_._events:
                     key = (event.name, event.what)
@@ -3237,11 +3255,17 @@ class Parameters:
                     if key in initial:
                         for path, value in (getattr(event, 'reached', None) or {}).items():
                             reached.setdefault(path, value)
+                    # (and what was entered at the last one)
+                    new, entered = latest.get(key, (None, {}))
+                    if first is None or new is not event.new:
+                        entered = {}
+                    entered.update(getattr(event, 'entered', None) or {})
+                    latest[key] = (event.new, entered)
                     if first is not None and (first.old is not event.old or reached):
                         event = Event(what=event.what, name=event.name, obj=event.obj, cls=event.cls,
                                       old=first.old, new=event.new, type=event.type)
                     if reached:
-                        event = _QueuedEvent.of(event, reached)
+                        event = _QueuedEvent.of(event, reached, entered=entered)
                     elif type(event) is not Event:
                         event = Event(*event)
                     event_dict[key] = event
